@@ -453,6 +453,18 @@ pub fn gen_probe_r1(tag: u8) -> Prog {
     mk(b.v, tag, Class::ProbeR1)
 }
 
+/// `ldxdw dst, [base_reg + off]` for any offset: offsets beyond the 16-bit displacement are
+/// reached through a scratch register (r8 = base + off; ldxdw dst, [r8+0]).
+fn load_slot(b: &mut B, dst: u8, base_reg: u8, off: usize) {
+    if off <= 32000 {
+        b.i(LDXDW, dst, base_reg, off as i16, 0);
+    } else {
+        b.i(MOV64_REG, 8, base_reg, 0, 0);
+        b.i(ADD64_IMM, 8, 0, 0, off as i32);
+        b.i(LDXDW, dst, 8, 0, 0);
+    }
+}
+
 pub fn gen_probe_slot(tag: u8, doff: usize, eoff: usize, len_variant: bool) -> Prog {
     let mut b = B::new(tag);
     b.i(MOV64_REG, 6, 1, 0, 0);
@@ -462,10 +474,10 @@ pub fn gen_probe_slot(tag: u8, doff: usize, eoff: usize, len_variant: bool) -> P
     b.i(MOV64_IMM, 5, 0, 0, 0);
     b.i(CALL, 0, 0, 0, KEY_PROBE_SLOT as i32);
     if !len_variant {
-        b.i(LDXDW, 0, 6, doff as i16, 0);
+        load_slot(&mut b, 0, 6, doff);
     } else {
-        b.i(LDXDW, 0, 6, eoff as i16, 0);
-        b.i(LDXDW, 2, 6, doff as i16, 0);
+        load_slot(&mut b, 0, 6, eoff);
+        load_slot(&mut b, 2, 6, doff);
         b.i(SUB64_REG, 0, 2, 0, 0);
     }
     b.i(EXIT, 0, 0, 0, 0);
@@ -476,8 +488,8 @@ pub fn gen_probe_slot(tag: u8, doff: usize, eoff: usize, len_variant: bool) -> P
 
 pub fn gen_slot_plain(tag: u8, doff: usize, eoff: usize) -> Prog {
     let mut b = B::new(tag);
-    b.i(LDXDW, 0, 1, eoff as i16, 0);
-    b.i(LDXDW, 2, 1, doff as i16, 0);
+    load_slot(&mut b, 0, 1, eoff);
+    load_slot(&mut b, 2, 1, doff);
     b.i(SUB64_REG, 0, 2, 0, 0);
     b.trailer(tag);
     let mut p = mk(b.v, tag, Class::SlotPlain);
